@@ -1,6 +1,7 @@
 """C03 — prediction is a per-sample function through every calling form (structural clauses)."""
 import re
 
+from . import inplace
 from .core import RuleResult
 from .facts import fn_key, fn_loc, walk, strip, peel_refs, pat_bindings, Render, children
 from .sym import Tracer, Term, Cmp, k, as_term, walk_terms
@@ -778,5 +779,43 @@ def rule_composite(ctx):
     return res.finish(4)
 
 
+def rule_overwrite(ctx):
+    """predict_inplace determines every element of the target from the batch and the model: the caller's buffer content
+    is never read, every element is written on every path (see rules/inplace.py)"""
+    res = RuleResult("R-C03-overwrite", "predict_inplace never reads what the target buffer held and writes every element: no compound assignment, no beta != 0 accumulation, no element left unwritten on some path")
+    F = ctx.facts()
+    ck = inplace.Checker(F)
+    n = 0
+    for fn in predictors(F):
+        if fn["d"]["name"] != "predict_inplace":
+            continue
+        ps = fn["params"]
+        key = fn_key(fn)
+        if len(ps) < 3 or ps[2].get("k") != "Bind":
+            res.instance("%s : target parameter" % key)
+            res.undecided("%s : target-parameter" % key, "third parameter of predict_inplace is not a plain binding", fn_loc(fn))
+            continue
+        n += 1
+        vs = ck.check(fn, ps[2]["local"])
+        res.instance("%s : %d uses of the target classified (%s)" % (key, len(vs), ", ".join(sorted(set(v.kind for v in vs)))))
+        bad = [v for v in vs if v.verdict != "ok"]
+        if not vs:
+            res.undecided("%s : no-write" % key, "no write to the target recognised", fn_loc(fn))
+        elif not bad:
+            res.ok()
+        seen = set()
+        for v in bad:
+            if (v.verdict, v.kind) in seen:
+                continue
+            seen.add((v.verdict, v.kind))
+            if v.verdict == "violation":
+                res.violate("%s : %s" % (key, v.kind), v.msg, fn_loc(fn, v.ln))
+            else:
+                res.undecided("%s : %s" % (key, v.kind), v.msg, fn_loc(fn, v.ln))
+    if n == 0:
+        res.missing_anchor("PredictInplace impls")
+    return res.finish(20)
+
+
 def rules(tier):
-    return [rule_forms, rule_shape, rule_rowlocal, rule_noint, rule_composite]
+    return [rule_forms, rule_shape, rule_rowlocal, rule_noint, rule_composite, rule_overwrite]
